@@ -55,6 +55,9 @@ type World struct {
 	exec     *hx.Exec   // the execution layer (and its mempool) outlives a restart of the node
 	released [][][]byte // ghost: non-empty batches released by the sequencing layer, in order
 	dupResp  bool       // some mempool response held the same bytes twice
+	// lossCause: for a transaction of a released batch that was found neither in the chain, nor in the block waiting
+	// at height+1, nor (again) in the sequencer's queue after some operation: what that operation was
+	lossCause map[string]string
 }
 
 func describe(ws hx.WriteSet) string {
@@ -171,6 +174,7 @@ func Run(c *hx.Ctx) {
 			w.opt = bm.Options{InitialHeight: 1, GenesisTime: time.Unix(0, o.I64("gt")), Aggregator: true}
 			w.qmax = o.Int("qmax")
 			w.handed, w.crashed, w.cause, w.released, w.dupResp = nil, false, "", nil, false
+			w.lossCause = map[string]string{}
 			w.exec = &hx.Exec{}
 			c.Emit("%s", w.start(nil))
 		case "mempool":
@@ -199,12 +203,23 @@ func Run(c *hx.Ctx) {
 			e := w.env
 			before := e.Height()
 			w.from = e.DS.NumWrites()
+			// exec=fail: the execution layer answers this step's ExecuteTxs with an error (engine unreachable / time-out);
+			// followed by `restart` this is also "the node dies while the execution layer works on the block"
+			fail := o.Str("exec") == "fail"
+			w.exec.Fail = fail
 			err := e.M.VerifPublishBlock(context.Background())
+			w.exec.Fail = false
 			cls := "nil"
 			if err != nil {
 				cls = errClass(err)
 			}
 			c.Emit("produce out=%s %s", cls, w.observe(before))
+			if fail {
+				c.Hit("produce-exec-fail")
+				w.track("after-execution-failure")
+			} else {
+				w.track("after-production-step")
+			}
 		case "restart", "crash":
 			e := w.env
 			n := e.DS.NumWrites()
@@ -221,9 +236,14 @@ func Run(c *hx.Ctx) {
 				}
 			}
 			img := e.DS.ImageAt(keep)
+			cut := keep < n
 			c.Emit("%s", w.start(img))
 			if w.dead {
 				c.Report("C11/restart-fails", "node does not start after "+o.Verb)
+			} else if cut {
+				w.track(w.cause)
+			} else {
+				w.track("after-restart")
 			}
 		case "drain":
 			// quiescence: reap until nothing is new, produce until the queue is empty, then check conservation
@@ -255,6 +275,8 @@ func errClass(err error) string {
 		return "err:validate:other"
 	case strings.Contains(s, "timestamp is not monotonically increasing"):
 		return "err:time"
+	case strings.Contains(s, "error applying block"):
+		return "err:exec"
 	}
 	return "err:other"
 }
@@ -301,7 +323,10 @@ func (w *World) checkConservation() {
 	for _, tx := range w.handed {
 		if !containsTx(chain, tx) {
 			sig := "C11/lost/other"
-			if w.crashed {
+			if cause, ok := w.lossCause[string(tx)]; ok {
+				// the operation after which the released batch was in no block, not waiting at height+1 and not queued
+				sig = "C11/lost/" + cause
+			} else if w.crashed {
 				sig = "C11/lost/" + w.cause
 			}
 			c.Report(sig, fmt.Sprintf("transaction %s was taken from the mempool and handed to the sequencer but is in no block", hx.Hex(tx)))
@@ -344,6 +369,76 @@ func (w *World) checkConservation() {
 			break
 		}
 		i++
+	}
+}
+
+// durableTxs: every transaction of the committed blocks, of the block waiting at height+1, and of the batches in the
+// sequencer's durable queue
+func (w *World) durableTxs() map[string]bool {
+	e := w.env
+	out := map[string]bool{}
+	for k := uint64(1); k <= e.Height()+1; k++ {
+		if _, d, err := e.Store.GetBlockData(context.Background(), k); err == nil {
+			for _, tx := range d.Txs {
+				out[string(tx)] = true
+			}
+		}
+	}
+	for k, v := range e.DS.Image() {
+		if !strings.HasPrefix(k, "/seq/") {
+			continue
+		}
+		for _, tx := range decodeBatch(v) {
+			out[string(tx)] = true
+		}
+	}
+	return out
+}
+
+// decodeBatch: `repeated bytes txs = 1` (the queue's WAL value)
+func decodeBatch(v []byte) [][]byte {
+	var out [][]byte
+	for len(v) > 0 {
+		if v[0] != 0x0a {
+			return out
+		}
+		v = v[1:]
+		n, sh, i := 0, uint(0), 0
+		for ; i < len(v); i++ {
+			n |= int(v[i]&0x7f) << sh
+			sh += 7
+			if v[i]&0x80 == 0 {
+				i++
+				break
+			}
+		}
+		v = v[i:]
+		if n > len(v) {
+			return out
+		}
+		out = append(out, append([]byte(nil), v[:n]...))
+		v = v[n:]
+	}
+	return out
+}
+
+// track: after an operation, every transaction of every batch the sequencing layer released must be durable somewhere
+// (a committed block, the block waiting at height+1, or the queue again); the first operation after which it is not
+// names the cause of the loss that checkConservation reports when the transaction never reaches a block.
+func (w *World) track(cause string) {
+	if w.dead || w.env == nil {
+		return
+	}
+	dur := w.durableTxs()
+	for _, b := range w.released {
+		for _, tx := range b {
+			k := string(tx)
+			if dur[k] {
+				delete(w.lossCause, k)
+			} else if _, ok := w.lossCause[k]; !ok {
+				w.lossCause[k] = cause
+			}
+		}
 	}
 }
 
